@@ -18,7 +18,8 @@ TECHNIQUE = ("who-may-call census of socket slots + descriptor typestate (open/c
              ", definition census of the connection chosen for a query, path search 'descriptor handed out or closed' in ares_socket_open")
 LEVEL_TEXT = ("static: decides the call-protocol clauses of C10 (owners, close order, open unwind typestate, announcement discipline, "
               "per-socket accounting, legacy enumerator agreement) on every CFG path, including OOM and failure unwinds the suite "
-              "marks LCOV_EXCL; does not decide equality of reported descriptor sets over runtime histories")
+              "marks LCOV_EXCL; does not decide equality of reported descriptor sets over runtime histories"
+              " Also decides that the connection a query is written to comes only from the limit-testing lookup or a fresh open, and that ares_socket_open hands out or closes every descriptor it obtained.")
 LEVEL_NOTE = "trusts clang's CFG and the extractor; user socket functions assumed to behave like the defaults; configuration linux+threads"
 DESIGN_REF = "DESIGN.md §6/C10"
 
